@@ -366,10 +366,14 @@ func main() {
 	merged.Violations = append(merged.Violations, crashViolations...)
 	merged.ViolationsN += int64(len(crashViolations))
 
-	// supplementary free-running -race pass (C13, thorough tier)
-	if id == "C13" && tier == "thorough" && replay == "" {
+	// supplementary free-running -race pass (C13; fewer iterations in the quick tier)
+	if id == "C13" && replay == "" {
 		raceBin := buildBinary(profile, true)
-		env := append(goEnv(), "VERIF_RACE_PASS=1", "GOMAXPROCS=8", "GORACE=halt_on_error=0")
+		iter := "10"
+		if tier == "thorough" {
+			iter = "40"
+		}
+		env := append(goEnv(), "VERIF_RACE_PASS=1", "VERIF_RACE_ITER="+iter, "GOMAXPROCS=8", "GORACE=halt_on_error=0")
 		log, err := run(verifDir, env, raceBin, "-test.run", "^TestC13Race$", "-test.timeout", "0", "-test.count", "1", "-test.v")
 		logPath := filepath.Join(logDir, "C13-race-pass.log")
 		_ = os.WriteFile(logPath, []byte(log), 0o644)
